@@ -118,7 +118,8 @@ def main():
                 # ONLY the known optimiser defect (valid Shape/Flatten/Softmax/Reshape -> Reshape chains) is retried
                 if "GetIndexFromName" not in str(e):
                     raise
-                onnx.checker.check_model(onnx.load_from_string(model_bytes), full_check=True)
+                # (no full check here: onnx's own shape inference can crash - LabelEncoder on a value of unknown shape)
+                onnx.checker.check_model(onnx.load_from_string(model_bytes))
                 sess = ort.InferenceSession(model_bytes, so_plain, providers=["CPUExecutionProvider"])
                 fallback = True
             res = ("ok", sess.run(None, feeds), fallback)
